@@ -15,6 +15,16 @@ out = f"{ROOT}/{ID}/out"
 V = "/verif"
 def sh(cmd, **kw):
     return subprocess.run(cmd, shell=True, capture_output=True, text=True, **kw)
+# re-test of a kept change: recreate the scratch worktree / deliverables from /verif/seeded/<ID>-<n+OFF>
+if not os.path.isdir(wt):
+    sh(f"git -C /repo worktree add --detach {wt} HEAD")
+kept = f"{V}/seeded/{ID}-{int(n) + OFF}"
+if not os.path.exists(f"{out}/patch{n}.diff") and os.path.isdir(kept):
+    os.makedirs(out, exist_ok=True)
+    shutil.copy(f"{kept}/patch.diff", f"{out}/patch{n}.diff")
+    shutil.copy(f"{kept}/demo.py", f"{out}/demo{n}.py")
+    m = json.load(open(f"{kept}/meta.json")); m.pop("confirmation", None); m.pop("caught_by", None)
+    json.dump(m, open(f"{out}/meta{n}.json", "w"), indent=1)
 res = {"property": ID, "n": int(n), "checks": {}}
 sh(f"git -C {wt} checkout -- . ")
 r = sh(f"cd {wt} && /venv/bin/python {out}/demo{n}.py"); res["demo_clean"] = {"rc": r.returncode, "tail": (r.stdout + r.stderr)[-300:]}
